@@ -1,1 +1,423 @@
+(* Roots/Lists.v — library lemmas: lists indexed by N, the sorted root table, association
+   lists, the statement-counting monad. *)
+From Coq Require Import Lia ZifyBool ZifyN ZifyNat.
 From HostdBase Require Import Base.
+From HostdRoots Require Import Model.
+Open Scope N_scope.
+
+(** * small helpers *)
+
+Lemma nlen_app {A} (l m : list A) : nlen (l ++ m) = nlen l + nlen m.
+Proof. unfold nlen; rewrite app_length; lia. Qed.
+
+Lemma nlen_cons {A} (x : A) l : nlen (x :: l) = nlen l + 1.
+Proof. unfold nlen; cbn [length]; lia. Qed.
+
+Lemma nlen_nil {A} : nlen (@nil A) = 0.
+Proof. reflexivity. Qed.
+
+Lemma mem_true x l : mem x l = true <-> In x l.
+Proof.
+  unfold mem; rewrite existsb_exists; split.
+  - intros (y & Hy & E); apply N.eqb_eq in E; now subst.
+  - intros H; exists x; split; [exact H|apply N.eqb_refl].
+Qed.
+
+Lemma list_eqb_refl (l : list N) : list_eqb N.eqb l l = true.
+Proof. induction l; cbn; [reflexivity|now rewrite N.eqb_refl]. Qed.
+
+Lemma list_eqb_eq (l m : list N) : list_eqb N.eqb l m = true -> l = m.
+Proof.
+  revert m; induction l as [|x l IH]; intros [|y m]; cbn; try discriminate; [reflexivity|].
+  intros H; apply andb_true_iff in H as [E H]; apply N.eqb_eq in E; subst; f_equal; auto.
+Qed.
+
+(** * set_nth / nth *)
+
+Lemma length_set_nth i r l : length (set_nth i r l) = length l.
+Proof. revert i; induction l as [|x l IH]; intros [|i]; cbn; auto. Qed.
+
+Lemma nth_set_nth_same i r l d : (i < length l)%nat -> nth i (set_nth i r l) d = r.
+Proof. revert i; induction l as [|x l IH]; intros [|i] H; cbn in *; try lia; auto; try (apply IH; lia). Qed.
+
+Lemma nth_set_nth_other i j r l d : i <> j -> nth j (set_nth i r l) d = nth j l d.
+Proof.
+  revert i j; induction l as [|x l IH]; intros [|i] [|j] H; cbn; auto; try congruence; try (apply IH; congruence).
+Qed.
+
+Lemma set_nth_nth i l d : set_nth i (nth i l d) l = l.
+Proof. revert i; induction l as [|x l IH]; intros [|i]; cbn; auto; try (now rewrite IH). Qed.
+
+Lemma set_nth_app_l i r l m : (i < length l)%nat -> set_nth i r (l ++ m) = set_nth i r l ++ m.
+Proof. revert i; induction l as [|x l IH]; intros [|i] H; cbn in *; try lia; auto; try (rewrite IH; auto; lia). Qed.
+
+Lemma swap_roots_same l a : swap_roots l a a = l.
+Proof.
+  unfold swap_roots, set_root, nth_root.
+  apply nth_ext with (d := 0) (d' := 0); [now rewrite !length_set_nth|].
+  intros n Hn; rewrite !length_set_nth in Hn.
+  destruct (Nat.eq_dec (N.to_nat a) n) as [E|E].
+  - subst n; rewrite nth_set_nth_same; [reflexivity|now rewrite length_set_nth].
+  - rewrite !nth_set_nth_other by exact E; reflexivity.
+Qed.
+
+Lemma swap_roots_comm l a b : a < nlen l -> b < nlen l -> swap_roots l a b = swap_roots l b a.
+Proof.
+  unfold swap_roots, set_root, nth_root, nlen; intros Ha Hb.
+  apply nth_ext with (d := 0) (d' := 0); [now rewrite !length_set_nth|].
+  intros n Hn; rewrite !length_set_nth in Hn.
+  destruct (Nat.eq_dec (N.to_nat a) (N.to_nat b)) as [Eab|Eab].
+  { rewrite Eab; reflexivity. }
+  destruct (Nat.eq_dec (N.to_nat b) n) as [E|E]; [subst n|].
+  - rewrite nth_set_nth_same by (rewrite length_set_nth; lia).
+    rewrite nth_set_nth_other by (intro; apply Eab; congruence).
+    rewrite nth_set_nth_same by lia; reflexivity.
+  - rewrite (nth_set_nth_other (N.to_nat b) n) by exact E.
+    destruct (Nat.eq_dec (N.to_nat a) n) as [E2|E2]; [subst n|].
+    + rewrite nth_set_nth_same by lia.
+      rewrite nth_set_nth_same by (rewrite length_set_nth; lia); reflexivity.
+    + rewrite !nth_set_nth_other by assumption; reflexivity.
+Qed.
+
+(** * the root table *)
+
+Lemma tbl_list_from i l : tbl_list (tbl_from i l) = l.
+Proof. revert i; induction l as [|r l IH]; intros i; cbn; [reflexivity|now rewrite IH]. Qed.
+
+Lemma tbl_list_of l : tbl_list (tbl_of l) = l.
+Proof. apply tbl_list_from. Qed.
+
+Lemma tbl_of_inj l m : tbl_of l = tbl_of m -> l = m.
+Proof. intros H; rewrite <- (tbl_list_of l), <- (tbl_list_of m); now rewrite H. Qed.
+
+Lemma tbl_from_app i l m : tbl_from i (l ++ m) = tbl_from i l ++ tbl_from (i + nlen l) m.
+Proof.
+  revert i; induction l as [|r l IH]; intros i; cbn [app tbl_from].
+  - rewrite nlen_nil, N.add_0_r; reflexivity.
+  - rewrite IH, nlen_cons. replace (i + (nlen l + 1)) with (i + 1 + nlen l) by lia. reflexivity.
+Qed.
+
+Lemma tget_from_lt j i l : j < i -> tget j (tbl_from i l) = None.
+Proof.
+  revert i; induction l as [|r l IH]; intros i H; cbn; [reflexivity|].
+  destruct (j =? i) eqn:E; [lia|apply IH; lia].
+Qed.
+
+Lemma tget_from i l k : (k < length l)%nat ->
+  tget (i + N.of_nat k) (tbl_from i l) = Some (nth k l 0).
+Proof.
+  revert i k; induction l as [|r l IH]; intros i k H; cbn in *; [lia|].
+  destruct k as [|k]; cbn.
+  - replace (i + 0 =? i) with true by lia; reflexivity.
+  - destruct (i + N.pos (Pos.of_succ_nat k) =? i) eqn:E; [lia|].
+    replace (i + N.pos (Pos.of_succ_nat k)) with (i + 1 + N.of_nat k) by lia.
+    apply IH; lia.
+Qed.
+
+Lemma tget_from_ge i l j : i + nlen l <= j -> tget j (tbl_from i l) = None.
+Proof.
+  revert i; induction l as [|r l IH]; intros i H; cbn; [reflexivity|].
+  rewrite nlen_cons in H.
+  destruct (j =? i) eqn:E; [lia|apply IH; lia].
+Qed.
+
+Lemma tget_of l j : j < nlen l -> tget j (tbl_of l) = Some (nth_root l j).
+Proof.
+  intros H; unfold tbl_of, nth_root.
+  replace j with (0 + N.of_nat (N.to_nat j)) at 1 by lia.
+  apply tget_from; unfold nlen in H; lia.
+Qed.
+
+Lemma tget_of_ge l j : nlen l <= j -> tget j (tbl_of l) = None.
+Proof. intros H; apply tget_from_ge; lia. Qed.
+
+Lemma tins_from_end i l r : tins (i + nlen l) r (tbl_from i l) = Some (tbl_from i (l ++ [r])).
+Proof.
+  revert i; induction l as [|x l IH]; intros i.
+  - cbn; rewrite N.add_0_r; reflexivity.
+  - cbn [tbl_from app tins]; rewrite nlen_cons.
+    destruct (i + (nlen l + 1) <? i) eqn:E1; [lia|].
+    destruct (i + (nlen l + 1) =? i) eqn:E2; [lia|].
+    replace (i + (nlen l + 1)) with (i + 1 + nlen l) by lia.
+    rewrite IH; reflexivity.
+Qed.
+
+Lemma tins_of_end l r : tins (nlen l) r (tbl_of l) = Some (tbl_of (l ++ [r])).
+Proof. exact (tins_from_end 0 l r). Qed.
+
+Lemma tins_from_dup i l k r : (k < length l)%nat -> tins (i + N.of_nat k) r (tbl_from i l) = None.
+Proof.
+  revert i k; induction l as [|x l IH]; intros i k H; cbn in *; [lia|].
+  destruct k as [|k].
+  - replace (i + N.of_nat 0 <? i) with false by lia.
+    replace (i + N.of_nat 0 =? i) with true by lia; reflexivity.
+  - destruct (i + N.of_nat (S k) <? i) eqn:E1; [lia|].
+    destruct (i + N.of_nat (S k) =? i) eqn:E2; [lia|].
+    replace (i + N.of_nat (S k)) with (i + 1 + N.of_nat k) by lia.
+    rewrite IH by lia; reflexivity.
+Qed.
+
+Lemma tset_from i l k r : (k < length l)%nat ->
+  tset (i + N.of_nat k) r (tbl_from i l) = tbl_from i (set_nth k r l).
+Proof.
+  revert i k; induction l as [|x l IH]; intros i k H; cbn in *; [lia|].
+  destruct k as [|k]; cbn.
+  - replace (i + 0 =? i) with true by lia; reflexivity.
+  - destruct (i + N.pos (Pos.of_succ_nat k) =? i) eqn:E; [lia|].
+    replace (i + N.pos (Pos.of_succ_nat k)) with (i + 1 + N.of_nat k) by lia.
+    rewrite IH by lia; reflexivity.
+Qed.
+
+Lemma tset_of l j r : j < nlen l -> tset j r (tbl_of l) = tbl_of (set_root l j r).
+Proof.
+  intros H; unfold tbl_of, set_root.
+  replace j with (0 + N.of_nat (N.to_nat j)) at 1 by lia.
+  apply tset_from; unfold nlen in H; lia.
+Qed.
+
+Lemma tupsert_of_lt l j r : j < nlen l -> tupsert j r (tbl_of l) = tbl_of (set_root l j r).
+Proof.
+  intros H; unfold tupsert, tbl_of.
+  replace j with (0 + N.of_nat (N.to_nat j)) at 1 by lia.
+  rewrite tins_from_dup by (unfold nlen in H; lia).
+  replace (0 + N.of_nat (N.to_nat j)) with j by lia.
+  now apply tset_of.
+Qed.
+
+Lemma tupsert_of_end l r : tupsert (nlen l) r (tbl_of l) = tbl_of (l ++ [r]).
+Proof. unfold tupsert; now rewrite tins_of_end. Qed.
+
+Lemma tpop_from_snoc i l r : tpop (tbl_from i (l ++ [r])) = Some (tbl_from i l, r).
+Proof.
+  revert i; induction l as [|x l IH]; intros i; [reflexivity|].
+  cbn [app tbl_from]; specialize (IH (i + 1)).
+  cbn [tpop]; rewrite IH.
+  destruct (tbl_from (i + 1) (l ++ [r])) eqn:E; [|reflexivity].
+  destruct l; discriminate.
+Qed.
+
+Lemma tpop_nil : tpop [] = None.
+Proof. reflexivity. Qed.
+
+Lemma firstn_snoc_skipn {A} (l : list A) n d : (S n <= length l)%nat ->
+  firstn (S n) l = firstn n l ++ [nth n l d].
+Proof.
+  revert n; induction l as [|x l IH]; intros n H; cbn in *; [lia|].
+  destruct n as [|n]; cbn; [reflexivity|]. rewrite <- IH by lia; reflexivity.
+Qed.
+
+Lemma trim_rows_from i l n acc : (n <= length l)%nat ->
+  trim_rows n (tbl_from i l) acc =
+  Ok (tbl_from i (firstn (length l - n) l), skipn (length l - n) l ++ acc).
+Proof.
+  revert l acc; induction n as [|n IH]; intros l acc H.
+  - cbn; rewrite Nat.sub_0_r, firstn_all, skipn_all; reflexivity.
+  - cbn [trim_rows].
+    destruct (@exists_last _ l) as (l' & r & ->); [intro; subst; cbn in H; lia|].
+    rewrite tpop_from_snoc.
+    rewrite app_length in *; cbn [length] in *.
+    rewrite IH by lia.
+    replace (length l' + 1 - S n)%nat with (length l' - n)%nat by lia.
+    rewrite firstn_app, skipn_app.
+    replace (length l' - n - length l')%nat with 0%nat by lia.
+    cbn [firstn skipn]; rewrite app_nil_r, <- app_assoc; reflexivity.
+Qed.
+
+Lemma trim_sectors_of l n : n <= nlen l ->
+  trim_sectors (tbl_of l) n = Ok (tbl_of (trim_roots l n), skipn (length l - N.to_nat n) l).
+Proof.
+  intros H; unfold trim_sectors, tbl_of, trim_roots.
+  rewrite trim_rows_from by (unfold nlen in H; lia).
+  now rewrite app_nil_r.
+Qed.
+
+Lemma tcut_from_all i l n : i + nlen l <= n -> tcut n (tbl_from i l) = tbl_from i l.
+Proof.
+  revert i; induction l as [|x l IH]; intros i H; cbn; [reflexivity|].
+  rewrite nlen_cons in H.
+  replace (i <? n) with true by lia. unfold tcut in IH; rewrite IH by lia; reflexivity.
+Qed.
+
+Lemma tcut_from_none i l n : n <= i -> tcut n (tbl_from i l) = [].
+Proof.
+  revert i; induction l as [|x l IH]; intros i H; cbn; [reflexivity|].
+  replace (i <? n) with false by lia. apply IH; lia.
+Qed.
+
+Lemma tcut_of_app l m : tcut (nlen l) (tbl_of (l ++ m)) = tbl_of l.
+Proof.
+  unfold tbl_of; rewrite tbl_from_app.
+  unfold tcut; rewrite filter_app.
+  fold (tcut (nlen l) (tbl_from 0 l)); fold (tcut (nlen l) (tbl_from (0 + nlen l) m)).
+  rewrite tcut_from_all by lia. rewrite tcut_from_none by lia. apply app_nil_r.
+Qed.
+
+(** * association lists *)
+
+Lemma alookup_aset_same V k (v : V) l : alookup k (aset k v l) = Some v.
+Proof.
+  induction l as [|[k' v'] t IH]; cbn; [now rewrite N.eqb_refl|].
+  destruct (k =? k') eqn:E; cbn; [now rewrite N.eqb_refl|now rewrite E].
+Qed.
+
+Lemma alookup_aset_other V k k' (v : V) l : k <> k' -> alookup k (aset k' v l) = alookup k l.
+Proof.
+  intros Hne; induction l as [|[k2 v2] t IH]; cbn.
+  - destruct (k =? k') eqn:E; [apply N.eqb_eq in E; contradiction|reflexivity].
+  - destruct (k' =? k2) eqn:E2; cbn.
+    + apply N.eqb_eq in E2; subst k2.
+      destruct (k =? k') eqn:E; [apply N.eqb_eq in E; contradiction|reflexivity].
+    + destruct (k =? k2); [reflexivity|exact IH].
+Qed.
+
+Lemma alookup_aset V k k' (v : V) l :
+  alookup k (aset k' v l) = if k =? k' then Some v else alookup k l.
+Proof.
+  destruct (k =? k') eqn:E.
+  - apply N.eqb_eq in E; subst; apply alookup_aset_same.
+  - apply alookup_aset_other; intro; subst; now rewrite N.eqb_refl in E.
+Qed.
+
+Lemma alookup_aremove_same V k (l : list (N * V)) :
+  NoDup (map fst l) -> alookup k (aremove k l) = None.
+Proof.
+  induction l as [|[k' v'] t IH]; cbn; [reflexivity|]; intros ND.
+  inversion ND as [|? ? Hn ND']; subst.
+  destruct (k =? k') eqn:E.
+  - apply N.eqb_eq in E; subst k'.
+    clear IH ND ND'. induction t as [|[k2 v2] t IH]; cbn; [reflexivity|].
+    destruct (k =? k2) eqn:E2.
+    + apply N.eqb_eq in E2; subst; exfalso; apply Hn; now left.
+    + apply IH; intro; apply Hn; now right.
+  - cbn; rewrite E; now apply IH.
+Qed.
+
+Lemma alookup_aremove_other V k k' (l : list (N * V)) :
+  k <> k' -> alookup k (aremove k' l) = alookup k l.
+Proof.
+  intros Hne; induction l as [|[k2 v2] t IH]; cbn; [reflexivity|].
+  destruct (k' =? k2) eqn:E2.
+  - apply N.eqb_eq in E2; subst k2.
+    destruct (k =? k') eqn:E; [apply N.eqb_eq in E; contradiction|reflexivity].
+  - cbn; destruct (k =? k2); [reflexivity|exact IH].
+Qed.
+
+Lemma alookup_In V k (v : V) l : alookup k l = Some v -> In (k, v) l.
+Proof.
+  induction l as [|[k' v'] t IH]; cbn; [discriminate|].
+  destruct (k =? k') eqn:E.
+  - apply N.eqb_eq in E; subst; intros [= ->]; now left.
+  - intros H; right; auto.
+Qed.
+
+Lemma alookup_None_notin V k (l : list (N * V)) : alookup k l = None -> ~ In k (map fst l).
+Proof.
+  induction l as [|[k' v'] t IH]; cbn; [tauto|].
+  destruct (k =? k') eqn:E; [discriminate|].
+  intros H [H1|H1]; [subst; now rewrite N.eqb_refl in E|now apply IH].
+Qed.
+
+Lemma In_alookup V k (v : V) l : NoDup (map fst l) -> In (k, v) l -> alookup k l = Some v.
+Proof.
+  induction l as [|[k' v'] t IH]; cbn; [tauto|]; intros ND [H|H].
+  - injection H as -> ->; now rewrite N.eqb_refl.
+  - inversion ND as [|? ? Hn ND']; subst.
+    destruct (k =? k') eqn:E.
+    + apply N.eqb_eq in E; subst; exfalso; apply Hn.
+      change k' with (fst (k', v)); now apply in_map.
+    + now apply IH.
+Qed.
+
+Lemma map_fst_aset V k (v : V) l :
+  map fst (aset k v l) = match alookup k l with Some _ => map fst l | None => map fst l ++ [k] end.
+Proof.
+  induction l as [|[k' v'] t IH]; cbn; [reflexivity|].
+  destruct (k =? k') eqn:E; cbn.
+  - apply N.eqb_eq in E; now subst.
+  - rewrite IH; destruct (alookup k t); reflexivity.
+Qed.
+
+Lemma NoDup_app_snoc {A} (l : list A) k : NoDup l -> ~ In k l -> NoDup (l ++ [k]).
+Proof.
+  induction l as [|x l IH]; cbn; intros ND Hn.
+  - constructor; [tauto|constructor].
+  - inversion ND as [|? ? Hx ND']; subst. constructor.
+    + rewrite in_app_iff; cbn; intros [H|[H|[]]]; [tauto|subst; tauto].
+    + apply IH; tauto.
+Qed.
+
+Lemma NoDup_aset V k (v : V) l : NoDup (map fst l) -> NoDup (map fst (aset k v l)).
+Proof.
+  intros ND; rewrite map_fst_aset.
+  destruct (alookup k l) eqn:E; [exact ND|].
+  apply alookup_None_notin in E.
+  apply NoDup_app_snoc; assumption.
+Qed.
+
+(** * the statement-counting monad *)
+
+(* [fok m]: without a fault the counter stays [None]; with a fault the computation either
+   fails with the injected error or behaves exactly as without one. *)
+Definition fok {A} (m : M A) : Prop :=
+  (forall a k', m None = Ok (a, k') -> k' = None) /\
+  (forall k, match m (Some k) with
+             | Ok (a, _) => m None = Ok (a, None)
+             | Err e => e = EOther \/ m None = Err e
+             | Panic => m None = Panic
+             end).
+
+Lemma fok_ret A (a : A) : fok (ret a).
+Proof. split; [now intros ? ? [= <- <-]|intros k; reflexivity]. Qed.
+
+Lemma fok_lift A (r : res A) : fok (lift r).
+Proof.
+  split; [destruct r; cbn; now intros ? ? [= <- <-] || discriminate|].
+  intros k; destruct r; cbn; auto.
+Qed.
+
+Lemma fok_stmt : fok stmt.
+Proof.
+  split; [now intros ? ? [= <- <-]|].
+  intros [|k]; cbn; [now left|reflexivity].
+Qed.
+
+Lemma fok_bind A B (m : M A) (f : A -> M B) : fok m -> (forall a, fok (f a)) -> fok (mbind m f).
+Proof.
+  intros [Hm1 Hm2] Hf; split.
+  - intros b k'; unfold mbind.
+    remember (m None) as r eqn:E; symmetry in E.
+    destruct r as [[a k1]| |]; try discriminate.
+    rewrite (Hm1 _ _ eq_refl); apply (proj1 (Hf a)).
+  - intros k; unfold mbind; specialize (Hm2 k).
+    remember (m (Some k)) as r eqn:E; symmetry in E.
+    destruct r as [[a k1]|e|].
+    + rewrite Hm2. destruct k1 as [k1|].
+      * apply (proj2 (Hf a) k1).
+      * remember (f a None) as r2 eqn:E2; symmetry in E2.
+        destruct r2 as [[b k2]|e|]; auto.
+        pose proof (proj1 (Hf a) b k2) as Hk. rewrite E2 in Hk. now rewrite (Hk eq_refl).
+    + destruct Hm2 as [-> | ->]; auto.
+    + now rewrite Hm2.
+Qed.
+
+Lemma fok_if A (b : bool) (m1 m2 : M A) : fok m1 -> fok m2 -> fok (if b then m1 else m2).
+Proof. now destruct b. Qed.
+
+Lemma fok_transaction A (m : M A) : fok m -> fok (transaction m).
+Proof.
+  intros H; unfold transaction.
+  apply fok_bind; [apply fok_stmt|intros _].
+  apply fok_bind; [exact H|intros a].
+  apply fok_bind; [apply fok_stmt|intros _; apply fok_ret].
+Qed.
+
+(* running without faults: the plain value *)
+Definition pure_of {A} (m : M A) : res A :=
+  match m None with Ok (a, _) => Ok a | Err e => Err e | Panic => Panic end.
+
+Lemma bind_None A B (m : M A) (f : A -> M B) a :
+  m None = Ok (a, None) -> mbind m f None = f a None.
+Proof. intros H; unfold mbind; now rewrite H. Qed.
+
+Lemma stmt_None : stmt None = Ok (tt, None).
+Proof. reflexivity. Qed.
